@@ -17,10 +17,24 @@ type smsSent struct {
 }
 
 type monC02 struct {
-	last []*smsSent // per browser: latest code sent on behalf of that browser's session
+	last     []*smsSent      // per browser: latest code sent on behalf of that browser's session
+	spentRec map[string]bool // recovery codes the monitor saw complete a login (storage is not trusted to have consumed them)
 }
 
-func (c *monC02) Init(m *Machine) { c.last = make([]*smsSent, len(m.W.Jars)) }
+func (c *monC02) Init(m *Machine) {
+	c.last = make([]*smsSent, len(m.W.Jars))
+	c.spentRec = map[string]bool{}
+}
+
+// unusedRecovery: stored hashes verify the code AND the monitor has not seen it used before.
+func (c *monC02) unusedRecovery(who string, pre harness.User, code string) bool {
+	k := who + "|" + code
+	if c.spentRec[k] || !recoveryInList(pre.RecoveryCodes, code) {
+		return false
+	}
+	c.spentRec[k] = true
+	return true
+}
 
 // factorEnabled: which second factors are in force for the stored user.
 func factorEnabled(m *Machine, u harness.User) (totpOn, smsOn bool) {
@@ -58,7 +72,7 @@ func (c *monC02) After(m *Machine, s *Step) *Violation {
 	case "totpvalidate":
 		m.flag("2fa-completed:totp")
 		if op.F {
-			if recoveryInList(pre.RecoveryCodes, s.Secret) {
+			if c.unusedRecovery(after, pre, s.Secret) {
 				return nil
 			}
 			return violation("C02", "completed-with-foreign-code:totp:recovery:"+op.Src, "totp validate logged in %q with recovery code %q which is not one of its unused codes", after, s.Secret)
@@ -71,7 +85,7 @@ func (c *monC02) After(m *Machine, s *Step) *Violation {
 	case "smsvalidate":
 		m.flag("2fa-completed:sms")
 		if op.F {
-			if recoveryInList(pre.RecoveryCodes, s.Secret) {
+			if c.unusedRecovery(after, pre, s.Secret) {
 				return nil
 			}
 			return violation("C02", "completed-with-foreign-code:sms:recovery:"+op.Src, "sms validate logged in %q with recovery code %q which is not one of its unused codes", after, s.Secret)
